@@ -19,7 +19,7 @@ struct SEv {
     uint64_t tick = 0;
 };
 struct STrack { std::vector<SEv> ev; bool eot_present = true; };
-struct SSong { int format = 1; unsigned division = 96; std::vector<STrack> tracks; };
+struct SSong { int format = 1; unsigned division = 96; std::vector<STrack> tracks; int shared = 0; /* generator mode: all tracks play on channels 0/1, the last data byte of a channel event carries 16*track + r */ };
 
 inline void put_vlq(std::string &o, uint32_t v) {
     uint8_t b[5]; int n = 0; b[n++] = v & 0x7F; v >>= 7;
@@ -50,13 +50,13 @@ inline void smf_ticks(SSong &s) { for(STrack &t : s.tracks) { uint64_t k = 0; fo
 
 // text form (replay files)
 inline std::string smf_ser(const SSong &s) {
-    std::ostringstream o; o << "song " << s.format << " " << s.division << " " << s.tracks.size() << "\n";
+    std::ostringstream o; o << "song " << s.format << " " << s.division << " " << s.tracks.size() << "\n"; if(s.shared) o << "shared " << s.shared << "\n";
     for(const STrack &t : s.tracks) { o << "track " << t.ev.size() << "\n"; for(const SEv &e : t.ev) o << "e " << e.delta << " " << (int)e.status << " " << (int)e.meta << " " << (int)e.running << " " << (e.data.empty() ? "-" : hex(e.data.data(), e.data.size())) << "\n"; }
     return o.str();
 }
 inline SSong smf_deser(std::istream &in) {
     SSong s; std::string w; size_t nt = 0; in >> w >> s.format >> s.division >> nt;
-    for(size_t i = 0; i < nt; i++) { size_t ne = 0; in >> w >> ne; STrack t; for(size_t k = 0; k < ne; k++) { SEv e; int st, me, ru; std::string h; in >> w >> e.delta >> st >> me >> ru >> h; e.status = (uint8_t)st; e.meta = (uint8_t)me; e.running = ru != 0; if(h != "-") e.data = unhex(h); t.ev.push_back(e); } s.tracks.push_back(t); }
+    for(size_t i = 0; i < nt; i++) { size_t ne = 0; in >> w; if(w == "shared") { in >> s.shared >> w; } in >> ne; STrack t; for(size_t k = 0; k < ne; k++) { SEv e; int st, me, ru; std::string h; in >> w >> e.delta >> st >> me >> ru >> h; e.status = (uint8_t)st; e.meta = (uint8_t)me; e.running = ru != 0; if(h != "-") e.data = unhex(h); t.ev.push_back(e); } s.tracks.push_back(t); }
     smf_ticks(s);
     return s;
 }
